@@ -6,10 +6,10 @@
    return.  Next plays every joint action (legal or not, also after termination; with LegalOnly = TRUE only joint
    actions in which every agent that has a legal node picks one) and every outcome of the tie-break.
    Without a time limit in reach (tl = NoLimit) the step counter is hidden by the VIEW and the whole game graph
-   is visited; the time limits in Limits are played out with the true counter, one step beyond the limit, on three graphs. *)
+   is visited; the time limits in Limits are played out with the true counter, one step beyond the limit, on two graphs. *)
 EXTENDS MMST
 
-CONSTANTS Limits, MinEdges, MaxEdges, LegalOnly
+CONSTANTS Limits, MinEdges, MaxEdges, Sample, LegalOnly
 VARIABLES s, type, tl
 vars == <<s, type, tl>>
 
@@ -29,18 +29,29 @@ Instance(E) ==
    positions |-> <<0, 3>>,
    connected_nodes_index |-> << <<0, -1, -1, -1, -1>>, <<-1, -1, -1, 3, -1>> >>,
    step_count |-> 0]
-Instances ==
+AllInstances ==
   { x \in { Instance(E) : E \in { F \in SUBSET Pairs : Cardinality(F) \in MinEdges..MaxEdges } } : GraphConnected(x) }
+(* a hand-picked sample for the quick run: path through the utility node, path with the utility node as a leaf, star
+   around the utility node, cycle, two triangles sharing the utility node, a graph where both agents can take the
+   utility node or go around it, the complete graph *)
+SampleInstances == { Instance(E) : E \in {
+    { <<0, 2>>, <<1, 2>>, <<2, 3>>, <<3, 4>> },
+    { <<0, 1>>, <<1, 3>>, <<3, 4>>, <<2, 4>> },
+    { <<0, 2>>, <<1, 2>>, <<2, 3>>, <<2, 4>> },
+    { <<0, 1>>, <<1, 2>>, <<2, 3>>, <<3, 4>>, <<0, 4>> },
+    { <<0, 1>>, <<0, 2>>, <<1, 2>>, <<2, 3>>, <<2, 4>>, <<3, 4>> },
+    { <<0, 2>>, <<1, 2>>, <<2, 3>>, <<2, 4>>, <<0, 3>>, <<1, 4>>, <<0, 1>> },
+    Pairs } }
+Instances == IF Sample THEN SampleInstances ELSE AllInstances
 
 JointActions == [1..NumAgents -> Nodes]
 HasLegal(k) == \E v \in Nodes : LegalAg(s, k, v)
 Respectful(a) == \A k \in Agents : IF HasLegal(k) THEN LegalAg(s, k, a[k + 1]) ELSE a[k + 1] = 0
 
 (* the few graphs on which the time limits are played out step by step (the time rule does not look at the graph):
-   a path through the utility node, a cycle, the complete graph *)
+   a path through the utility node, a cycle *)
 TimedInstances == { Instance(E) : E \in { { <<0, 2>>, <<1, 2>>, <<2, 3>>, <<3, 4>> },
-                                          { <<0, 1>>, <<1, 2>>, <<2, 3>>, <<3, 4>>, <<0, 4>> },
-                                          Pairs } }
+                                          { <<0, 1>>, <<1, 2>>, <<2, 3>>, <<3, 4>>, <<0, 4>> } } }
 NoLimit == 99
 Init ==
   /\ \/ tl = NoLimit /\ s \in Instances
@@ -71,11 +82,11 @@ Solo(k, v) == [j \in 1..NumAgents |-> IF j = k + 1 THEN v ELSE s.positions[j]]  
 (* C10 *) InitWellFormed == type = FIRST => (ShapeOK(s) /\ AdjSimple(s) /\ GraphConnected(s) /\ TypesConsistent(s) /\ StartOK(s))
 (* C04: the two statements of the rules agree, and they agree with the dynamics: an agent acting alone
    reaches the node it picked iff the rules allow the pick *)
-MaskIsLegal == \A k \in Agents : \A v \in Nodes : Mask(s)[k + 1][v + 1] <=> LegalAg(s, k, v)
+MaskIsLegal == LET m == Mask(s) IN \A k \in Agents : \A v \in Nodes : m[k + 1][v + 1] <=> LegalAg(s, k, v)
 MaskSound == \A k \in Agents : \A v \in Nodes : \A t \in Succs(s, Solo(k, v)) :
   IF LegalAg(s, k, v) THEN PosOf(t, k) = v /\ v # PosOf(s, k) /\ Visited(t, k) = Visited(s, k) \cup {v}
   ELSE PosOf(t, k) = PosOf(s, k) /\ Visited(t, k) = Visited(s, k)
-(* C04 *) FinishedHasNoMove == \A k \in Agents : Finished(s, k) => \A v \in Nodes : ~Mask(s)[k + 1][v + 1]
+(* C04 *) FinishedHasNoMove == LET m == Mask(s) IN \A k \in Agents : Finished(s, k) => \A v \in Nodes : ~m[k + 1][v + 1]
 (* C06 *) FeasibleAlways == Feasible(s)
 (* C06 *) CompletionIsSolution == (type = LAST /\ s.step_count < tl) => FullSolution(s)
 (* C06 *) FinishedMeansConnected ==
